@@ -5,7 +5,7 @@ cd /verif; mkdir -p work/thorough
 for id in "$@"; do
   cp evidence/$id.json work/thorough/$id.quick.bak 2>/dev/null
   start=$(date +%s)
-  timeout ${THOROUGH_TIMEOUT:-7200} ./bin/check $id --tier thorough > work/thorough/$id.log 2>&1
+  VERIF_FORCE_THOROUGH=1 timeout ${THOROUGH_TIMEOUT:-7200} ./bin/check $id --tier thorough > work/thorough/$id.log 2>&1
   rc=$?
   end=$(date +%s)
   cp evidence/$id.json work/thorough/$id.evidence.json 2>/dev/null
